@@ -920,7 +920,7 @@ def jobs(tier, seed):
                             (min(r - 1, c), min(c - 1, r))}):
             if 0 <= cell[0] < r and 0 <= cell[1] < c:
                 out.append(dict(h="neighbors", r=r, c=c, cell=list(cell)))
-    for r, c in ([(2, 2), (2, 3), (3, 2), (3, 3)] if q else [(2, 2), (2, 3), (3, 2), (4, 2), (3, 3), (3, 4)]):
+    for r, c in ([(2, 2), (2, 3), (3, 2), (3, 3)] if q else [(2, 2), (2, 3), (3, 2), (4, 2), (3, 3), (2, 5)]):
         cells = list(itertools.product(range(r), range(c)))
         if q and (r, c) == (3, 3):
             cells = [(0, 0), (1, 1), (2, 1)]
